@@ -48,7 +48,10 @@ Record wst := {
   cur3 : option N;      (* … and as read a third time, after the store has been consulted: findEligibleUtxos naming the
                            first selected address, the script closure of signWitnessTx *)
   st : store;
-  taskchan : bool       (* h.taskChan has been created by the worker goroutine *)
+  taskchan : bool;      (* h.taskChan has been created by the worker goroutine *)
+  evicted : bool        (* km.currentKeystore still names a keystore that km.managedKeystores no longer holds: a failed NewAddress
+                           whose reload of the keystore failed too dropped the cached entry (needs a failing database: after
+                           Stop, or two storage faults). CurrentKeystore() then answers nil: [cur] = None *)
 }.
 
 (* one switch per site found to panic; true = repaired *)
@@ -65,22 +68,23 @@ Record fixes := {
   fx_import_rec : bool;   (* asyncImport skips a transaction for which filterTxForImporting returns (nil, nil) *)
   fx_taskchan : bool;     (* the task queue exists before requests are served (or is nil-tested) *)
   fx_select_neg : bool;   (* GetTxHistory treats wanted <= 0 as the default *)
+  fx_cur_evicted : bool;  (* GetManagedAddressByScriptHashInCurrent tests the cache look-up (as ChangePrivPassphrase does) *)
   fx_bindhist_hash : bool (* GetBindingHistoryDetail compares the hash of the transaction it fetched by (height, location) with the
                              recorded one (as TxStore.ExistsTx does) and skips the row when the node's chain has changed there *)
 }.
 Definition all_fixed : fixes :=
   {| fx_cti_index := true; fx_cti_block := true; fx_cti_dup := true; fx_senders := true; fx_sign_meta := true; fx_sign_len0 := true;
      fx_cur_nil := true; fx_cur3_nil := true; fx_import_rec := true; fx_taskchan := true; fx_select_neg := true;
-     fx_bindhist_hash := true |}.
+     fx_cur_evicted := true; fx_bindhist_hash := true |}.
 (* the switches as /repo stands now *)
 Definition current_code : fixes :=
   {| fx_cti_index := true; fx_cti_block := true; fx_cti_dup := true; fx_senders := true; fx_sign_meta := true; fx_sign_len0 := true;
      fx_cur_nil := true; fx_cur3_nil := true; fx_import_rec := true; fx_taskchan := true; fx_select_neg := true;
-     fx_bindhist_hash := false |}.
+     fx_cur_evicted := false; fx_bindhist_hash := false |}.
 Definition as_found : fixes :=
   {| fx_cti_index := false; fx_cti_block := false; fx_cti_dup := false; fx_senders := false; fx_sign_meta := false; fx_sign_len0 := false;
      fx_cur_nil := false; fx_cur3_nil := false; fx_import_rec := false; fx_taskchan := false; fx_select_neg := false;
-     fx_bindhist_hash := false |}.
+     fx_cur_evicted := false; fx_bindhist_hash := false |}.
 
 (* ---------------------------------------------------------------- wire.NewHashFromStr *)
 (* at most 64 hex characters; the value of the hex numeral identifies the hash *)
@@ -558,6 +562,18 @@ Section Handle.
                      bind (idx PTargetIdx (repeat tt (Z.to_nat (script_len a))) 21) (fun _ => Ok tt))
          end.
 
+  (* ValidateAddress -> WalletManager.IsAddressInCurrent -> KeystoreManager.GetManagedAddressByScriptHashInCurrent *)
+  Definition validate_address (fx : fixes) (e : env) (w : wst) (a : str) : outcome unit :=
+    match c_addr cd a with
+    | ADecErr => Ok tt                              (* answered: not valid *)
+    | _ =>
+        if evicted w then (if fx_cur_evicted fx then Err ErrAPINoWalletInUse else Panic PCurEvictedNil)
+        else match cur w with
+             | None => Err ErrAPINoWalletInUse      (* ErrCurrentKeystoreNotFound *)
+             | Some _ => Ok tt                      (* mine or not mine *)
+             end
+    end.
+
   (* the automatic transactions: EstimateTxFee / EstimateStakingTxFee / EstimateBindingTxFee begin with prepareFromAddresses *)
   Definition auto_tx (fx : fixes) (e : env) (w : wst) : outcome unit :=
     match cur w with
@@ -623,6 +639,7 @@ Section Handle.
         | None => Err ErrAPINoWalletInUse
         | Some _ => get_tx_history fx (e_history_batches e) count
         end
+    | RValidateAddress a => validate_address fx e w a
     | RGetRawTransaction _ =>
         match e_rawtx e with
         | None => Err ErrBelow
@@ -723,5 +740,6 @@ Definition guarded_by (fx : fixes) (p : site) : bool :=
   | PTaskChanNil => fx_taskchan fx
   | PSelectSlice => fx_select_neg fx
   | PBindHistIndex | PBindHistTargetNil => fx_bindhist_hash fx
+  | PCurEvictedNil => fx_cur_evicted fx
   | _ => true
   end.
